@@ -152,6 +152,9 @@ def build(case):
     elif kind == 'multi':
         pool = {'M': M, 'S': docs.second_lexicon(v),
                 'T': docs.second_lexicon(v, 'th')}
+        if 'X' in case['order']:        # an extension of M in the same resource as M
+            pool['X'] = docs.extension(v, docs.maximal(v, flags=('annot',)), flags=('annot',))
+            pool['M'] = docs.maximal(v, flags=('annot',))
         lexs = [pool[k] for k in case['order']]
     elif kind == 'ext':
         X = docs.extension(v, M, flags=flags)
@@ -221,4 +224,5 @@ def shape_space(v, counts=(0, 1, 2, 3)):
 
 def multi_space(v):
     return [{'v': v, 'kind': 'multi', 'order': list(o)}
-            for o in (['M', 'S'], ['S', 'M'], ['S', 'T'], ['T', 'M', 'S'], ['S'])]
+            for o in [['M', 'S'], ['S', 'M'], ['S', 'T'], ['T', 'M', 'S'], ['S']]
+            + ([['M', 'X'], ['S', 'M', 'X'], ['M', 'S', 'X', 'T'], ['X', 'M'], ['X', 'S']] if v != '1.0' else [])]
